@@ -346,6 +346,15 @@ def mk_ds():
         def big(self):
             self.a >= 4
             vsc.soft(self.a == 6)
+
+        # a dynamic constraint that references one whose name sorts after its own (elaborated later)
+        @vsc.dynamic_constraint
+        def afwd(self):
+            self.tiny()
+
+        @vsc.dynamic_constraint
+        def tiny(self):
+            self.a < 2
     return DS
 
 
@@ -371,9 +380,14 @@ def _s0(it):
     it.a != 0
 
 
+def _s5(it):
+    it.afwd()
+
+
 # scenario -> (inline block, values of a the call may return): a referenced block imposes its hard statements and,
 # when referenced as a statement, its softs (greedy, later wins); as a Boolean term only its hard statements compose
-DS_SCN = {"ref": (_s1, {1}), "not": (_s2, {4, 5, 6, 7}), "or": (_s3, {5, 6, 7}), "ref+soft": (_s4, {5}), "none": (_s0, set(range(1, 8)))}
+DS_SCN = {"ref": (_s1, {1}), "not": (_s2, {4, 5, 6, 7}), "or": (_s3, {5, 6, 7}), "ref+soft": (_s4, {5}), "none": (_s0, set(range(1, 8))),
+          "fwdref": (_s5, {0, 1})}
 
 
 def ds_case(hist):
